@@ -104,6 +104,9 @@ type Action struct {
 	SLLA string  `json:"slla,omitempty"`
 	RA   *RASpec `json:"ra,omitempty"`
 	N    int     `json:"n,omitempty"` // copies delivered at this instant (default 1)
+	// Then: another packet put into the socket queue right behind this one, before
+	// the daemon gets to run (a burst: the listener finds them all waiting).
+	Then *Action `json:"then,omitempty"`
 
 	// Machine state: kind fwd, autoconf, addrs, routes, link, ifup, ifdown, mac.
 	On     bool     `json:"on,omitempty"`
